@@ -483,8 +483,17 @@ def make_tb_text(rnd):
                 lines.append(ln)
                 meta["partial_lines"].append(ln)
             meta["partial"] += 1
-            # a separator keeps the partial run from being completed by what follows
-            lines.append(tb_line("SEPARATOR_%d" % rnd.randint(0, 99), rnd))
+            if rnd.random() < 0.45:
+                # ... directly followed by a COMPLETE run (of any kind): the line that ends the partial match is
+                # the first line of a run that has to be collapsed
+                pat2, _name2 = rnd.choice(PATTERNS)
+                for p in pat2:
+                    lines.append(tb_line(p, rnd))
+                meta["complete"] += 1
+                meta["partial_then_complete"] = meta.get("partial_then_complete", 0) + 1
+            else:
+                # a separator keeps the partial run from being completed by what follows
+                lines.append(tb_line("SEPARATOR_%d" % rnd.randint(0, 99), rnd))
         else:
             pat, _name = rnd.choice(PATTERNS)
             sh = list(pat)
@@ -526,6 +535,7 @@ def run_filter_unit(unit, res, c, progress):
         c["filter_inputs"] = c.get("filter_inputs", 0) + 1
         c["filter_complete_runs"] = c.get("filter_complete_runs", 0) + meta["complete"]
         c["filter_partial_runs"] = c.get("filter_partial_runs", 0) + meta["partial"]
+        c["filter_partial_runs_directly_followed_by_a_complete_run"] = c.get("filter_partial_runs_directly_followed_by_a_complete_run", 0) + meta.get("partial_then_complete", 0)
         c["filter_lines_longer_than_240_characters"] = c.get("filter_lines_longer_than_240_characters", 0) + meta["long_lines"]
         if meta.get("ends_in_partial_run"):
             c["filter_inputs_ending_inside_a_run"] = c.get("filter_inputs_ending_inside_a_run", 0) + 1
